@@ -234,6 +234,9 @@ def run(ctx):
             lay = sorted({m[2][i][1].split('/')[-1] for i, u in enumerate(ev['unchanged']) if not u})
             ctx.violation(f'{m[1]}: argument {",".join(changed)} modified ({",".join(lay)})',
                           {'function': m[1], 'configuration': m[2], 'raised': m[3]})
+    # growth module (DESIGN §8): the MaskingTool state machine; findings are not C09 violations
+    from .. import lib_growth_masking
+    ctx.run_growth(lib_growth_masking.run, 'lib_growth_masking')
 
 
 def _drop_noop_mutations(ops, p, handles, ref):
